@@ -149,6 +149,25 @@ CHECKS = {
              "any dependence on uninitialised memory directly.",
         note="Host states are a sample; memcheck narrows the gap.",
         ref="4/C11"),
+    "C09": dict(
+        technique="sanitizers (ASan+UBSan+_GLIBCXX_ASSERTIONS, fork per case) and valgrind memcheck over hostile generated inputs, with an accept/reject outcome monitor",
+        engine="sanfuzz",
+        text="Exploration: 1.5e5 (quick) to 3e6 (thorough) byte strings up to 4 KiB - random bytes, printable noise, token soups, "
+             "token-level mutations/splices/truncations of generated and shipped programs, deep nesting, ~50 families of grammatical but "
+             "semantically odd programs - through xcmp::Driver in the sanitizer build, one forked process per case; a sample through the "
+             "real main() (sanitizer build of xcmp.cpp) and a sample under memcheck. Violation = sanitizer report, assertion, signal, "
+             "non-std exception, confirmed hang, or an outcome that is neither (image, no diagnostic) nor (diagnostic, no output).",
+        note="A clean sanitizer run is not memory safety (intra-object overflows are invisible to red zones). Watchdog firings are re-run alone at 10x budget; unreproduced ones are counted, not reported.",
+        ref="4/C09"),
+    "C10": dict(
+        technique="sanitizers (ASan+UBSan, fork per case) and memcheck over hostile generated assembly sources; HEX_VERIF layout-pass hook as deterministic non-termination monitor",
+        engine="sanfuzz",
+        text="Exploration: 2e5 (quick) to 5e6 (thorough) byte strings - random bytes, token soups, mutations of generated and shipped .S "
+             "files, undefined/duplicated/keyword-like labels, literals beyond 32 and 64 bits, end of file after every token, empty "
+             "sources, rings of references at boundary distances - through Lexer/Parser/CodeGen/emitBin in the sanitizer build with the "
+             "layout hook bounding passes at 8 x directives + 64; sample through hexasm's real main() and under memcheck.",
+        note="Same limits as C09.",
+        ref="4/C10"),
 }
 
 PENDING_REASON = "no check registered yet in this revision of /verif (machinery for it is still being built; see DESIGN.md section 4)"
@@ -187,6 +206,8 @@ def main():
              "kind_free_text": "Verilated models built by the check from the working tree, stepped in lock-step; state access by name"},
             {"name": "procmon", "path": "checks/c14.py", "serves_properties": ["C11", "C12", "C14"],
              "kind_free_text": "runs shipped executables in scratch directories, snapshots files, compares with in-process results"},
+            {"name": "sanfuzz", "path": "lib/fuzzcheck.py", "serves_properties": ["C09", "C10"],
+             "kind_free_text": "hostile input generators (lib/bytegen.py), fork-per-case sanitizer harnesses, violation keys from the innermost repo frame"},
             {"name": "buildcache", "path": "lib/common.py", "serves_properties": sorted(CHECKS),
              "kind_free_text": "content-hash build cache, fork-per-case runner, verdict/evidence/known-finding plumbing"},
         ],
